@@ -78,7 +78,8 @@ static int stub_unlock(fiber_mutex_t* m) {
 }
 void fiber_scheduler_schedule(fiber_scheduler_t* s, fiber_t* f) {
   verif_sync(-4);
-  if (!G.locked || !G.ops || G.scheduled || f != G.w0 || f == 0 || f->state != FIBER_STATE_READY || f->scratch != 0 || CH->waiters != G.w0next) G.bad = 1;
+  /* (whether the peer is woken before or after the ring is updated cannot be observed: both happen under the lock) */
+  if (!G.locked || G.scheduled || f != G.w0 || f == 0 || f->state != FIBER_STATE_READY || f->scratch != 0 || CH->waiters != G.w0next) G.bad = 1;
   G.scheduled++; G.woken = f;
 }
 void fiber_manager_yield(fiber_manager_t* mgr) {
